@@ -222,6 +222,7 @@ prop('C11', level='other',
      jobs=['group_2d'],
      unit_jobs={GF + 'compute_features_2d': ['group_2d'], BGF: ['group_2d']},
      no_input_kinds=('ensures', 'frame'),
+     assumptions=['group level: an option list is a map position -> value with per-position mutation, i.e. its entries are assumed to be pairwise distinct objects (lists built as [opts] * n are covered by the bounded jobs; defect D15 lived exactly there)'],
      trusted=['multiprocessing.Pool.imap yields f(x_k) in input order whatever the number of workers and their completion '
               'order (assumed contract; imap_unordered is modelled as an arbitrary permutation)',
               'functools.partial, zip, deepcopy of option lists (new element objects), progress_bar (same items, same order; '
